@@ -261,8 +261,16 @@ func init() {
 		Assumptions:   []string{"string values in these programs contain no CR/LF, so introspection text can be separated from program output line by line"},
 		MinNontrivial: 1000,
 		Run: func(c *core.Ctx) {
+			fixed := c10Fixed()
+			for k, src := range fixed {
+				if c.Mine(int64(k)) && len(src) < 50000 {
+					c.Begin(int64(k))
+					c19Program(c, int64(k), []byte(src))
+					c.Count("fixed_boundary_programs", 1)
+				}
+			}
 			n := int64(c.Pick(15000, 400000))
-			for i := int64(0); i < n; i++ {
+			for i := int64(len(fixed)); i < n; i++ {
 				if !c.Mine(i) {
 					continue
 				}
